@@ -240,6 +240,8 @@ def run_check(prop, tier, seed, jobs, runs=None, budget=None, write_evidence=Tru
     _print("%s %s: runs=%d ops=%d distinct_traces=%d nontrivial=%d foreign=%d known_hits=%d wall=%.1fs exit=%d"
            % (prop, tier, total_runs, total_ops, len(abstract), len(nontrivial), sum(foreign.values()),
               sum(known_hit.values()), wall, exit_code))
+    for sg, c in foreign.most_common(6):
+        _print("  discarded (oracle owned by another property): %dx %s" % (c, sg))
     return exit_code
 
 
